@@ -25,7 +25,8 @@ fn is_digit(c: u8, radix: u32) -> bool {
 
 fn opt_pairs<T>(f: &FloatFmt<T>, thorough: bool) -> Vec<OptPair> {
     let big = f.radix.max(f.exp_radix);
-    let ok = |c: u8| !is_digit(c, big);
+    // valid punctuation for this format: not a digit, not the separator / prefix / suffix byte
+    let ok = |c: u8| !is_digit(c, big) && c != f.sep && !(f.prefix != 0 && c == f.prefix) && !(f.suffix != 0 && c == f.suffix);
     let mut points: Vec<u8> = vec![b'.', b',', b';', b' '];
     let mut exps: Vec<u8> = vec![b'e', b'^', b'p', b'P', b'E', b'\t'];
     points.retain(|&c| ok(c));
